@@ -153,6 +153,11 @@ package corerad
 //@   requires P0: ctx != nil && a.minDelayBetweenRAs > 0 && a.minDelayBetweenRAs <= secs(3600) && advOK(a) && ifiOK(a.cfg) && conn != nil
 //@   assigns ghost.now, ghost.done, ghost.scheduled, ghost.sgCtx, ghost.running, ghost.wgCount, ghost.wgWaited, ghost.lockDepth, new heap(bool)
 //@   ensures E8 [C08]: stopped && setHas(ghost.wgWaited, addr(workerWG))
+//@   ghost local failed Bool
+//@   ghost local werr Iface
+//@   at recv errC(ev): ghost.failed = true ; ghost.werr = ev
+//@   loop 1 invariant M10 [C10]: !ghost.failed
+//@   ensures E9 [C10]: ghost.failed ==> result == ghost.werr
 //@   at call time.Now() (t) when !ghost.started: ghost.lastFire = t ; ghost.started = true
 //@   at call time.Now() (t) when ghost.awaiting: ghost.trigger = t ; ghost.awaiting = false
 //@   loop 1 invariant M9: a != nil && advOK(a)
@@ -261,6 +266,9 @@ package corerad
 //@   assigns everything
 //@   at call begin() (ok): ghost.began = ok
 //@   at call sendWorker(sa, sc, sip): assert B1 [C08]: ghost.began
+//@   ghost local swerr Iface
+//@   at call sendWorker(sa2, sc2, sip2) (se): ghost.swerr = se
+//@   at send errC(ev): assert F1 [C10]: ev != nil && ev == ghost.swerr
 //@   at call sync.Done(wg): assert D1 [C08]: ghost.began && wg == addr(workerWG) ; ghost.running = ghost.running - 1
 //@   opt safety [C10]
 //@ func (*Advertiser).schedule$4
@@ -271,6 +279,9 @@ package corerad
 //@   assigns everything
 //@   at call begin() (ok): ghost.began = ok
 //@   at call sendWorker(sa, sc, sip): assert B1 [C08]: ghost.began
+//@   ghost local swerr Iface
+//@   at call sendWorker(sa2, sc2, sip2) (se): ghost.swerr = se
+//@   at send errC(ev): assert F1 [C10]: ev != nil && ev == ghost.swerr
 //@   at call sync.Done(wg): assert D1 [C08]: ghost.began && wg == addr(workerWG) ; ghost.running = ghost.running - 1
 //@   opt safety [C10]
 
@@ -808,7 +819,10 @@ package corerad
 //@   opt capture CAP
 //@   requires CAP [C06,C07,C10]: ctx != nil && conn != nil && ipC != nil && a != nil && advOK(a) && ifiOK(a.cfg) && a.minDelayBetweenRAs > 0 && a.minDelayBetweenRAs <= secs(3600)
 //@   assigns everything
-//@   at call schedule(sa, sctx, sconn, sipC) (serr): assert S1 [C06,C07,C10]: sa == a && sctx == ctx && sconn == conn && sipC == ipC
+//@   ghost local serr Iface
+//@   at call schedule(sa, sctx, sconn, sipC): assert S1 [C06,C07,C10]: sa == a && sctx == ctx && sconn == conn && sipC == ipC
+//@   at call schedule(sa2, sctx2, sconn2, sipC2) (se): ghost.serr = se
+//@   ensures E1 [C10]: (result != nil) == (ghost.serr != nil) && errIs(result, global("context.Canceled")) == errIs(ghost.serr, global("context.Canceled"))
 //@   opt safety [C10]
 //@ func (*Advertiser).advertise$2
 //@   opt capture CAP
